@@ -18,7 +18,9 @@ if it had not.  An app may raise `httping.HTTPError` (`Err`, `respondX`): before
 length-delimited text response of its own, afterwards the response simply ends.
 
 Not modelled (outside C18's quantifier, never generated): an app that supplies a `Content-Length` header through the header
-list of the model (the model takes the length as a number) or another transfer coding, an app that raises anything else.
+list of the model (the model takes the length as a number) or another transfer coding, an ITERATOR that raises anything else.
+An app CALLABLE that raises anything else (`AppX.crash`): no response, the server closes the connection once earlier responses
+are flushed (tree with the `fix:` commits 1b1019f and 9f8cb8a).
 -/
 namespace Hio.Http.Wsgi
 open Hio.Http
@@ -183,6 +185,9 @@ def errApp (e : Err) : App :=
 structure AppX where
   app : App
   err : Option (Nat × Err)
+  /-- the application callable itself raises something that is not an `HTTPError` (tree with fix 1b1019f): there is nothing to send,
+  the responder is closed and the server closes the connection — also when the request was persistent and more are buffered -/
+  crash : Bool := false
 deriving Repr, DecidableEq
 
 def respondX (r : Req) (x : AppX) : Bytes :=
@@ -196,7 +201,8 @@ def respondX (r : Req) (x : AppX) : Bytes :=
 def serveX : List (Req × AppX) → Out
   | [] => ⟨[], false, 0⟩
   | (r, x) :: rest =>
-    if persisted r then
+    if x.crash then ⟨[], true, 1⟩
+    else if persisted r then
       let o := serveX rest
       ⟨respondX r x ++ o.raw, o.closed, o.calls + 1⟩
     else ⟨respondX r x, true, 1⟩
